@@ -25,3 +25,18 @@ def last_chars(s, n):
     if n >= len(s):
         return s
     return s[len(s) - n:len(s)]
+
+
+def truth(v):
+    """ C12: TRUE and non-zero numbers are true; FALSE, zero and blank are false.  On those values this is Python
+        truthiness, which is what `truthy` denotes (one non-forking term); text and dates, which the statement does
+        not mention, follow Python truthiness as well. """
+    return truthy(v)
+
+
+def join_texts(items, k):
+    """ concatenation of text_of(items[0..k)) for a concrete-length list """
+    out = ''
+    for i in range(0, k):
+        out = out + text_of(items[i])
+    return out
